@@ -1,25 +1,27 @@
 (* C09 -- property theorems only.  Each is closed by `exact <lemma>`; axioms are
    printed by the audit step of bin/check (Print Assumptions per theorem). *)
 From Coq Require Import String Ascii List Bool Arith NArith.
-From SV Require Import C09.Syntax C09.Model C09.Spec C09.ProofsTop C09.ProofsOptions C09.Recursion C09.RecursionProofs.
+From SV Require Import C09.Syntax C09.Model C09.Spec C09.ProofsTop C09.ProofsOptions C09.ProofsAllowed C09.ProofsDup C09.ProofsIds C09.Unfold C09.Recursion C09.RecursionProofs.
 Import ListNotations.
 Open Scope string_scope.
 
 (* FULL STATEMENT (resolver_sound_complete): for ALL programs and ALL 2^6 option
    vectors, (rule, node) is reported  <->  violates opts p rule node, and
    errors = []  <->  no rule is broken.
-   PROVED HERE for every rule whose statement needs no name resolution: the 6
-   context rules (break/continue, return, if/for/while at top level, while), the
-   3 load-placement rules and the underscore rule, the 2 assignment-target rules,
-   the 11 argument-list rules (order, duplicates, the 255 limits), the 7
-   parameter-list rules (order of star, double-star and default parameters, bare star).
-   MISSING: the same equivalence for RUndefined, RSetUnsupported, RReassign,
-   RLoadReassign and RParDuplicate.  These depend on the block table and on
-   lookupLexical's memoisation (one report per name and top-level block); they are
-   modelled executable in Model.v and tied to the code by the correspondence check
-   (exact error lists) on every run, but not proved against a declarative scoping
-   specification.  Consequently `errors = [] <-> no rule broken` is proved in the
-   direction accepted -> no violation (of the proved rules). *)
+   PROVED HERE for the 30 rules whose statement needs no name resolution beyond the
+   parameter list itself: the 6 context rules (break/continue, return, if/for/while
+   at top level, while), the 3 load-placement rules and the underscore rule, the 2
+   assignment-target rules, the 11 argument-list rules (order, duplicates, the 255
+   limits), the 8 parameter-list rules (order of star, double-star and default
+   parameters, bare star, duplicate parameters).
+   MISSING: the same equivalence for RUndefined, RSetUnsupported, RReassign and
+   RLoadReassign.  These depend on the block table and on lookupLexical's
+   memoisation (one report per name and top-level block); they are modelled
+   executable in Model.v and tied to the code by the correspondence check (exact
+   error lists) and the scoping oracle Spec.scope_viol on every run; what is
+   proved about them: scoping_errors_at_identifiers_partial (sound positions) and
+   option_on_never_rejects.  Consequently `errors = [] <-> no rule broken` is
+   proved in the direction accepted -> no violation (of the proved rules). *)
 Theorem resolver_sound_complete_partial :
   forall (o : options) (W : world) (p : program) (r : rule) (n : N),
     scoping_rule r = false ->
@@ -44,11 +46,47 @@ Theorem option_exact_partial :
        (In (r, n) (resolve o W p) <-> o_toplevel_control o = false /\ In (r, n) (controls_in p))).
 Proof. exact option_exact_lemma. Qed.
 
+(* For ALL six options, including those that gate scoping rules: an option that
+   is ON never causes a rejection -- no error of a rule its flag switches off is
+   ever reported (Set: RSetUnsupported; While: RWhileUnsupported;
+   TopLevelControl: RIfToplevel/RForToplevel/RWhileToplevel; GlobalReassign:
+   RReassign/RLoadReassign), at any position, for all programs. *)
+Theorem option_on_never_rejects :
+  forall (o : options) (W : world) (p : program) (r : rule) (n : N),
+    In (r, n) (resolve o W p) -> allowed o r = true.
+Proof. exact flags_on_lemma. Qed.
+
 Theorem other_options_do_not_leak :
   forall (o1 o2 : options) (p : program),
     o_while o1 = o_while o2 -> o_toplevel_control o1 = o_toplevel_control o2 ->
     viol o1 p = viol o2 p.
 Proof. exact options_independent_lemma. Qed.
+
+(* Duplicate parameters.  A def or a lambda processes its parameter list in its
+   freshly pushed function block (Unfold.u_SDef, u_ELambda: `params_ (enter_fn st) p0 ps`);
+   from ANY state, for ALL parameter lists, the duplicate-parameter reports made
+   there are exactly -- same positions, same order -- those the specification
+   names: an ordinary parameter whose name occurs among the preceding ordinary
+   ones, then *args if its name is an ordinary parameter's, then **kwargs if its
+   name is any of those.  (The same fact is part of resolver_sound_complete_partial,
+   where RParDuplicate is one of the proved rules; this is its local form.) *)
+Theorem parameter_duplicates_exact_partial :
+  forall (o : options) (W : world) (st : rs) (ps : params),
+    exists E, errs (params_ o W (enter_fn st) p0 ps) = (errs (enter_fn st) ++ E)%list /\ od E = dup_params ps.
+Proof. exact param_duplicates_lemma. Qed.
+
+(* Positions of the name-resolution errors (the sound half of the scoping rules):
+   for ALL programs and option vectors every "undefined" report is positioned at
+   an occurrence of an identifier that is neither predeclared nor universal, and
+   every "sets not supported" report at an occurrence of the identifier `set`,
+   only when Set is off.  (Completeness -- every undefined use leads to a report
+   -- is not proved; see resolver_sound_complete_partial.) *)
+Theorem scoping_errors_at_identifiers_partial :
+  forall (o : options) (W : world) (p : program) (n : N),
+    (In (RUndefined, n) (resolve o W p) ->
+       exists x, In (n, x) (ids_stmts p) /\ mem x (w_predeclared W) = false /\ mem x (w_universal W) = false) /\
+    (In (RSetUnsupported, n) (resolve o W p) -> In (n, "set") (ids_stmts p) /\ o_set o = false).
+Proof. exact scoping_positions_lemma. Qed.
 
 (* A program the resolver rejects performs no effect: the pipeline
    (ExecFileOptions: parse, resolve, and only then compile and run) returns the
@@ -96,6 +134,16 @@ Definition ex_prog : program :=
                    (SCons (SDef 3005 3009 "g" PNil (SCons (SBranch 3014) SNil)) SNil))
           (SCons (SWhile 4003 (EId 4009 "a") (SCons (SExpr ELit) SNil)) SNil)))
   (SCons (SIf 5001 (EId 5004 "f") (SCons (SExpr ELit) SNil) SNil) SNil).
+
+Example ex_dups :
+  dup_params (PId 1 "a" (PDef 2 "a" ELit (PStar 3 (Some (4%N, "b")) (PId 5 "b" (PStarStar 6 7 "a" PNil)))))
+  = [(RParDuplicate, 2%N); (RParDuplicate, 4%N); (RParDuplicate, 7%N)].
+Proof. vm_compute. reflexivity. Qed.
+
+Example ex_undefined :
+  resolve all_off ex_W (SCons (SExpr (ECall 1001 (EId 1001 "log") (APos 1005 (EOp (ECons (EId 1005 "nosuch") (ECons (EId 1014 "set") ENil))) ANil))) SNil)
+  = [(RUndefined, 1005%N); (RSetUnsupported, 1014%N)].
+Proof. vm_compute. reflexivity. Qed.
 
 Example ex_resolve :
   resolve all_off ex_W ex_prog = [(RBranchNotInLoop, 3014%N); (RWhileUnsupported, 4003%N); (RIfToplevel, 5001%N)]
